@@ -26,6 +26,10 @@ func init() {
 	Generators["C18"] = func(t *rapid.T, tier string) any {
 		text, toks := baseText(t, tier)
 		out, note := mutateText(t, text, toks)
+		if gen.Chance(t, "c18.tall", 30) {
+			// tall texts are rare (1 %) here: every cursor position is visited
+			out, note = tallText(t, out, note)
+		}
 		return &TextCase{Bytes: []byte(out), Note: note}
 	}
 }
